@@ -91,7 +91,7 @@ def run(ctx):
             mp = os.path.join(ctx.work, "c11_m%d.img" % k)
             open(mp, "wb").write(m)
             L = c10.read_script(mp, n, names)
-            L[0] = "readlimit %d" % (3 * n + 200)
+            L[0] = "readlimit %d" % (8 * n + 500)
             rc, out, err, wd = common.run_script(ctx, "\n".join(L) + "\n", timeout=100)
             os.unlink(mp)
             shutil.rmtree(wd, ignore_errors=True)
@@ -108,7 +108,7 @@ def run(ctx):
                     what = "a read-only call did not return within the watchdog period (loop that makes no progress and reads nothing)"
                 ctx.fail("oracle" if rc in (3, 124) or "sig=14" in last else "crash", what,
                          {"flavour": flav, "redirects": [{"block": f[0], "offset": f[1], "field": f[3], "block_kind": f[4], "to_block": t} for f, t in zip(fs, ts)],
-                          "read_budget_per_call": 3 * n + 200, "script": L[2:9]},
+                          "read_budget_per_call": 8 * n + 500, "script": L[2:9]},
                          expected="an error or data after a bounded number of reads", actual=out[-2:])
                 if len(ctx.failures) > 6:
                     break
@@ -157,7 +157,7 @@ def run(ctx):
                 mkimage.put32(m, x * 512 + 508, x if nxt == "itself" else root)
                 mp = os.path.join(ctx.work, "c11_bmx.img")
                 open(mp, "wb").write(bytes(m))
-                L = ["readlimit %d" % (3 * n + 200), "loaddev mem %s" % mp, "mountdev 1", "mount 0 1", "free", "list - 0 1", "umount", "umountdev"]
+                L = ["readlimit %d" % (8 * n + 500), "loaddev mem %s" % mp, "mountdev 1", "mount 0 1", "free", "list - 0 1", "umount", "umountdev"]
                 rc, out, err, wd2 = common.run_script(ctx, "\n".join(L) + "\n", timeout=100)
                 shutil.rmtree(wd2, ignore_errors=True)
                 ctx.count(("bmext-floppy", flav, x, nxt))
@@ -193,7 +193,7 @@ def run(ctx):
                     m[root * 512:(root + 1) * 512] = rb
                 mp = os.path.join(ctx.work, "c11_big.img")
                 open(mp, "wb").write(bytes(m))
-                L = ["readlimit %d" % (3 * nbig + 200), "loaddev file %s" % mp, "mountdev 1", "mount 0 1", "free", "list - 0 1", "umount", "umountdev"]
+                L = ["readlimit %d" % (8 * nbig + 500), "loaddev file %s" % mp, "mountdev 1", "mount 0 1", "free", "list - 0 1", "umount", "umountdev"]
                 rc, out, err, wd2 = common.run_script(ctx, "\n".join(L) + "\n", timeout=200)
                 shutil.rmtree(wd2, ignore_errors=True)
                 ctx.count(("bmext", what))
@@ -206,7 +206,7 @@ def run(ctx):
     rule = ("each pointer field (hash-table slots, nextSameHash, extension, nextDirC, parent, firstData, nextData, realEntry, bitmap pointers) of each metadata block of "
             "well-formed base images redirected to itself / its predecessor / the root / its file header / a block of each other kind (dir, file, ext, cache, OFS data, link, free), "
             "classes (block kind, field, target kind) covered round-robin, then random pairs; checksums repaired; every file also read whole in one call; cyclic "
-            "PART/FSHD/LSEG lists; cyclic bitmap-extension list on a 109730-block hardfile; read-only API with a budget of 3*volume+200 device reads per call; distinct = distinct set of redirects")
+            "PART/FSHD/LSEG lists; cyclic bitmap-extension list on a 109730-block hardfile; read-only API with a budget of 8*volume+500 device reads per call; distinct = distinct set of redirects")
     return common.finish(ctx, proof, rule, level="exploration",
                          assumptions=["the bound is on device reads per API call; CPU-only loops are caught by the 60 s alarm of the harness"])
 
